@@ -29,12 +29,28 @@ def _profile_collector(found):
 def main():
     out_path, job_path = sys.argv[1], sys.argv[2]
     job = json.load(open(job_path))
-    os.environ.setdefault('OPENMDAO_REPORTS', '0')
     os.environ['OPENMDAO_REPORTS'] = '0'
-    os.environ.setdefault('OPENMDAO_WORKDIR', '')
     scratch = tempfile.mkdtemp(prefix='symx_')
     os.chdir(scratch)
     warnings.filterwarnings('ignore')
+    try:
+        if 'batch' in job:
+            results = []
+            for j in job['batch']:
+                results.append(run_one(j))
+                with open(out_path + '.tmp', 'w') as f:
+                    json.dump(results, f, default=str)
+                os.replace(out_path + '.tmp', out_path)
+        else:
+            res = run_one(job)
+            with open(out_path, 'w') as f:
+                json.dump(res, f, default=str)
+    finally:
+        os.chdir('/')
+        shutil.rmtree(scratch, ignore_errors=True)
+
+
+def run_one(job):
     res = dict(job={k: job[k] for k in ('check', 'fn', 'params', 'mode')}, ok=False)
     t0 = time.time()
     try:
@@ -108,10 +124,7 @@ def main():
         res['error'] = ''.join(traceback.format_exception(type(e), e, e.__traceback__))[-4000:]
         res['error_type'] = type(e).__name__
     res['wall_s'] = round(time.time() - t0, 3)
-    os.chdir('/')
-    shutil.rmtree(scratch, ignore_errors=True)
-    with open(out_path, 'w') as f:
-        json.dump(res, f, default=str)
+    return res
 
 
 def _js(m):
